@@ -8,6 +8,7 @@ import datetime
 import decimal
 import enum
 import fractions
+import itertools
 import numbers
 import pathlib
 import re
@@ -975,10 +976,16 @@ class FixedTupleUnmarshaller(AbstractUnmarshaller[compat.TupleT]):
             val: The input value to unmarshal.
         """
         decoded = serdes.load(val)
-        return self.origin(
-            routine(v)
-            for routine, v in zip(self.ordered_routines, serdes.itervalues(decoded))
-        )
+        routines = self.ordered_routines
+        # Extra members are dropped (see above), missing members are an error:
+        #   `zip` alone would silently return a tuple shorter than declared.
+        values = (*itertools.islice(serdes.itervalues(decoded), len(routines)),)
+        if len(values) < len(routines):
+            raise ValueError(
+                f"{val!r} has too few members for {self.t!r}: "
+                f"expected {len(routines)}, got {len(values)}"
+            )
+        return self.origin(routine(v) for routine, v in zip(routines, values))
 
 
 _ST = tp.TypeVar("_ST")
